@@ -4,7 +4,7 @@
 use qwt::{AccessBin, BitVector, BitVectorMut};
 use serde::{Deserialize, Serialize};
 
-use crate::core::{catch, panic_kind, Hinted, RunOut, Sig, Tier, HINT_STYLES};
+use crate::core::{catch, panic_kind, FaultySource, Hinted, RunOut, Sig, SourceFault, Tier, HINT_STYLES, SOURCE_FAULT_MARK};
 use crate::ds::{de_with, ser_with};
 use crate::prng::{stream, Digest, Rng};
 use crate::simdisk::{gen_plan, persist, reload, DiskPlan};
@@ -40,6 +40,10 @@ pub enum Op {
     Clone,
     /// `dst.clone_from(&x)` into an existing vector with these bits; continue on `dst`
     CloneFrom(String),
+    /// `extend` with booleans from a source that fails (panic caught, the vector stays in use) or ends early
+    ExtendBoolsFaulty(String, SourceFault),
+    /// the same with positions
+    ExtendPositionsFaulty(Vec<usize>, SourceFault),
     /// BitVectorMut -> BitVector -> BitVectorMut
     FreezeThaw,
     /// iter().collect::<BitVectorMut>()
@@ -112,7 +116,7 @@ pub fn gen_case(run_seed: u64, tier: Tier) -> BvmCase {
     };
     let n_ops = rng.urange(1, max_ops);
     // swarm: a per-run weight for every operation kind, some switched off entirely
-    let mut weights = [0u64; 14];
+    let mut weights = [0u64; 16];
     for w in weights.iter_mut() {
         *w = if rng.chance(1, 4) { 0 } else { rng.range(1, 8) };
     }
@@ -210,6 +214,27 @@ pub fn gen_case(run_seed: u64, tier: Tier) -> BvmCase {
             13 => {
                 let k = gen_len(&mut rng).min(1500);
                 Op::CloneFrom(bits_to_string(&gen_bools(&mut rng, k)))
+            }
+            14 => {
+                let k = rng.urange(1, 700);
+                let j = match rng.below(3) {
+                    0 => ((512 - n % 512) % 512).min(k), // the source fails / ends exactly at a line boundary
+                    _ => rng.usize_below(k + 1),
+                };
+                let panic = rng.bool();
+                // (the model length after a failed extend is the vector's choice; bounded here by the worst case)
+                n += if panic { k } else { j };
+                Op::ExtendBoolsFaulty(bits_to_string(&gen_bools(&mut rng, k)), if panic { SourceFault::PanicAfter(j) } else { SourceFault::NoneAfter(j) })
+            }
+            15 => {
+                let k = rng.urange(1, 12);
+                let span = n + rng.urange(1, 700);
+                let v: Vec<usize> = (0..k).map(|_| rng.usize_below(span)).collect();
+                if let Some(&m) = v.iter().max() {
+                    n = n.max(m + 1);
+                }
+                let j = rng.usize_below(k + 1);
+                Op::ExtendPositionsFaulty(v, if rng.bool() { SourceFault::PanicAfter(j) } else { SourceFault::NoneAfter(j) })
             }
             12 => {
                 // the serialized size is about 24 + 64 * lines bytes
@@ -489,14 +514,15 @@ fn full(ctx: &mut Ctx, x: &BitVectorMut, m: &[bool], rng: &mut Rng, step: usize)
                 2 => n,
                 _ => rng.usize_below(n + 1),
             };
-            let j = rng.usize_below(70);
+            let j = if rng.chance(1, 5) { n + rng.usize_below(3) } else { rng.usize_below(70) };
             let rest: Vec<bool> = m.iter().copied().skip(c).collect();
-            let e_nth = (rest.get(j).copied(), rest.iter().copied().skip(j + 1).collect::<Vec<bool>>());
+            let left = rest.len().saturating_sub(j + 1);
+            let e_nth = (rest.get(j).copied(), rest.iter().copied().skip(j + 1).collect::<Vec<bool>>(), left, true);
             ctx.obs(
                 "BitVectorMut",
                 "iter_nth",
                 None,
-                &|| w(&format!("iter(): {c} x next(), then nth({j}), then the rest; len()={n}")),
+                &|| w(&format!("iter(): {c} x next(), then nth({j}), then (len(), size_hint() encloses what is left) and the rest; len()={n}")),
                 e_nth,
                 || {
                     let mut it = x.iter();
@@ -504,7 +530,9 @@ fn full(ctx: &mut Ctx, x: &BitVectorMut, m: &[bool], rng: &mut Rng, step: usize)
                         it.next();
                     }
                     let g = it.nth(j);
-                    (g, it.take(n + 64).collect::<Vec<bool>>())
+                    let (l, h) = (it.len(), it.size_hint());
+                    let h = h.0 <= left && h.1.map_or(true, |u| u >= left);
+                    (g, it.take(n + 64).collect::<Vec<bool>>(), l, h)
                 },
                 |v| h_vec_bool(&v.1) ^ v.0.map_or(7, |b| b as u64),
             );
@@ -612,14 +640,15 @@ fn full(ctx: &mut Ctx, x: &BitVectorMut, m: &[bool], rng: &mut Rng, step: usize)
                 ctx.obs("BitVector", "ref_into_iter_step_by", None, &|| w(&format!("frozen (&bv).into_iter().step_by({s_}) with len()={n}")), e.clone(), || (&bv).into_iter().step_by(s_).take(n + 64).collect::<Vec<bool>>(), h_vec_bool);
                 ctx.obs("BitVector", "into_iter_step_by", None, &|| w(&format!("frozen clone().into_iter().step_by({s_}) with len()={n}")), e, || bv.clone().into_iter().step_by(s_).take(n + 64).collect::<Vec<bool>>(), h_vec_bool);
                 let c = (rng.usize_below(n / 64 + 1) * 64).min(n);
-                let j = rng.usize_below(70);
+                let j = if rng.chance(1, 5) { n + rng.usize_below(3) } else { rng.usize_below(70) };
                 let rest: Vec<bool> = m.iter().copied().skip(c).collect();
-                let e_nth = (rest.get(j).copied(), rest.iter().copied().skip(j + 1).collect::<Vec<bool>>());
+                let left = rest.len().saturating_sub(j + 1);
+                let e_nth = (rest.get(j).copied(), rest.iter().copied().skip(j + 1).collect::<Vec<bool>>(), left, true);
                 ctx.obs(
                     "BitVector",
                     "iter_nth",
                     None,
-                    &|| w(&format!("frozen iter(): {c} x next(), then nth({j}), then the rest; len()={n}")),
+                    &|| w(&format!("frozen iter(): {c} x next(), then nth({j}), then (len(), size_hint() encloses what is left) and the rest; len()={n}")),
                     e_nth.clone(),
                     || {
                         let mut it = bv.iter();
@@ -627,7 +656,9 @@ fn full(ctx: &mut Ctx, x: &BitVectorMut, m: &[bool], rng: &mut Rng, step: usize)
                             it.next();
                         }
                         let g = it.nth(j);
-                        (g, it.take(n + 64).collect::<Vec<bool>>())
+                        let (l, h) = (it.len(), it.size_hint());
+                    let h = h.0 <= left && h.1.map_or(true, |u| u >= left);
+                        (g, it.take(n + 64).collect::<Vec<bool>>(), l, h)
                     },
                     |v| h_vec_bool(&v.1) ^ v.0.map_or(7, |b| b as u64),
                 );
@@ -635,7 +666,7 @@ fn full(ctx: &mut Ctx, x: &BitVectorMut, m: &[bool], rng: &mut Rng, step: usize)
                     "BitVector",
                     "into_iter_nth",
                     None,
-                    &|| w(&format!("frozen clone().into_iter(): {c} x next(), then nth({j}), then the rest; len()={n}")),
+                    &|| w(&format!("frozen clone().into_iter(): {c} x next(), then nth({j}), then (len(), size_hint() encloses what is left) and the rest; len()={n}")),
                     e_nth,
                     || {
                         let mut it = bv.clone().into_iter();
@@ -643,7 +674,9 @@ fn full(ctx: &mut Ctx, x: &BitVectorMut, m: &[bool], rng: &mut Rng, step: usize)
                             it.next();
                         }
                         let g = it.nth(j);
-                        (g, it.take(n + 64).collect::<Vec<bool>>())
+                        let (l, h) = (it.len(), it.size_hint());
+                    let h = h.0 <= left && h.1.map_or(true, |u| u >= left);
+                        (g, it.take(n + 64).collect::<Vec<bool>>(), l, h)
                     },
                     |v| h_vec_bool(&v.1) ^ v.0.map_or(7, |b| b as u64),
                 );
@@ -865,6 +898,79 @@ pub fn exec(case: &BvmCase) -> RunOut {
                     x = y;
                 }
             }
+        } else if let Op::ExtendBoolsFaulty(..) | Op::ExtendPositionsFaulty(..) = op {
+            // the source iterator is the seam: it fails (the panic is caught and the vector stays in use) or reports
+            // its end early. Afterwards the vector holds what it held plus the effect of some prefix of the values
+            // the source had yielded (which prefix is the vector's choice), never anything else.
+            let (fault, total) = match op {
+                Op::ExtendBoolsFaulty(s, f) => (*f, s.len()),
+                Op::ExtendPositionsFaulty(v, f) => (*f, v.len()),
+                _ => unreachable!(),
+            };
+            let r = catch(|| match op {
+                Op::ExtendBoolsFaulty(s, f) => x.extend(FaultySource::new(string_to_bits(s).into_iter(), *f)),
+                Op::ExtendPositionsFaulty(v, f) => x.extend(FaultySource::new(v.iter().copied(), *f)),
+                _ => unreachable!(),
+            });
+            let apply = |m: &mut Vec<bool>, upto: usize| match op {
+                Op::ExtendBoolsFaulty(s, _) => m.extend(string_to_bits(s).into_iter().take(upto)),
+                Op::ExtendPositionsFaulty(v, _) => {
+                    for &p in v.iter().take(upto) {
+                        if p >= m.len() {
+                            m.resize(p + 1, false);
+                        }
+                        m[p] = true;
+                    }
+                }
+                _ => unreachable!(),
+            };
+            match (fault, r) {
+                (SourceFault::NoneAfter(j), Ok(())) => {
+                    ctx.out.count("fault.source_ends_early", 1);
+                    apply(&mut m, j.min(total));
+                }
+                (SourceFault::PanicAfter(j), Ok(())) if j >= total => apply(&mut m, total),
+                (SourceFault::PanicAfter(j), Err(msg)) if msg.contains(SOURCE_FAULT_MARK) => {
+                    ctx.out.count("fault.source_panics", 1);
+                    let j = j.min(total);
+                    let seen = catch(|| (x.len(), x.iter().take(m.len() + total + 4096).collect::<Vec<bool>>()));
+                    let mut matched = None;
+                    if let Ok((l, bits)) = &seen {
+                        for upto in (0..=j).rev() {
+                            let mut cand = m.clone();
+                            apply(&mut cand, upto);
+                            if cand.len() == *l && &cand == bits {
+                                matched = Some(cand);
+                                break;
+                            }
+                        }
+                    }
+                    match matched {
+                        Some(cand) => m = cand,
+                        None => {
+                            let sig = ctx.sig("BitVectorMut", "extend_interrupted", "wrong_value", "general");
+                            ctx.out.violate(
+                                sig,
+                                format!(
+                                    "step {step}: after an extend whose source failed after {j} values the vector ({:?}) is not what it was ({n} bits) plus the effect of any prefix of those values",
+                                    seen.as_ref().map(|(l, _)| *l)
+                                ),
+                            );
+                            break;
+                        }
+                    }
+                }
+                (_, Ok(())) => {
+                    let sig = ctx.sig("BitVectorMut", "extend_interrupted", "fault_swallowed", "general");
+                    ctx.out.violate(sig, format!("step {step}: extend returned normally although its source panicked"));
+                    break;
+                }
+                (_, Err(msg)) => {
+                    let sig = ctx.sig("BitVectorMut", "extend", panic_kind(&msg), "general");
+                    ctx.out.violate(sig, format!("step {step}: extend from a faulty source ({fault:?}) panicked: {msg}"));
+                    break;
+                }
+            }
         } else {
             let res = catch(|| {
             let mut y = std::mem::take(&mut x);
@@ -908,7 +1014,7 @@ pub fn exec(case: &BvmCase) -> RunOut {
                 Op::IntoIterCollect => {
                     y = y.into_iter().collect::<BitVectorMut>();
                 }
-                Op::Persist { .. } => unreachable!(),
+                Op::Persist { .. } | Op::ExtendBoolsFaulty(..) | Op::ExtendPositionsFaulty(..) => unreachable!(),
             }
             y
             });
